@@ -277,6 +277,69 @@ func init() {
 				}
 			},
 		}
+		// two templates over the same spliced values: building the second must not disturb the
+		// first, nor the values spliced into both
+		pW1 := func() int {
+			if tier == "thorough" {
+				return 5
+			}
+			return 4
+		}
+		const pW2 = 4
+		// only templates that use a value (contain an unquote or a splice) and are well formed
+		var hasUnq func(t V) bool
+		hasUnq = func(t V) bool {
+			if t.K == model.KList && len(t.Elems) > 0 && t.Elems[0].K == model.KSym && (t.Elems[0].S == "unquote" || t.Elems[0].S == "splice-unquote") {
+				return true
+			}
+			if t.K == model.KList || t.K == model.KVec {
+				for _, e := range t.Elems {
+					if hasUnq(e) {
+						return true
+					}
+				}
+			}
+			return false
+		}
+		pairIdx := map[int][]int64{}
+		idxOf := func(w int) []int64 {
+			if l, ok := pairIdx[w]; ok {
+				return l
+			}
+			var l []int64
+			for i := int64(0); i < dgOf().Count(0, w); i++ {
+				if t := dgOf().Unrank(0, i); hasUnq(t) && qqWellFormed(t) {
+					l = append(l, i)
+				}
+			}
+			pairIdx[w] = l
+			return l
+		}
+		pairOf := func(i int64) (V, V) {
+			l1, l2 := idxOf(pW1()), idxOf(pW2)
+			n := int64(len(l2))
+			return dgOf().Unrank(0, l1[i/n]), dgOf().Unrank(0, l2[i%n])
+		}
+		pairProg := func(i int64) V {
+			t1, t2 := pairOf(i)
+			return form("let", model.Vec(sym("l"), form("quote", model.List(model.Int(0), model.Int(1), model.Int(2))), sym("v"), model.Vec(model.Int(4), model.Int(5), model.Int(6))),
+				form("vector", form("quasiquote", t1), form("quasiquote", t2), sym("l"), sym("v")))
+		}
+		pairs := &vf.Family{
+			Name:   "template-pairs",
+			Bounds: "(let [l '(0 1 2) v [4 5 6]] (vector `T1 `T2 l v)) for every ordered pair of well-formed templates of the same grammar that contain an unquote or a splice, T1 of weight <=4 (quick) / <=5 (thorough) and T2 of weight <=4: the spliced values have spare capacity in their backing arrays, both results and both spliced values are looked at afterwards",
+			Setup:  setup,
+			N:      func(t string) int64 { tier = t; return int64(len(idxOf(pW1()))) * int64(len(idxOf(pW2))) },
+			Describe: func(i int64) string { return pairProg(i).Lisp() },
+			Run: func(i int64, r *vf.Rec) {
+				t1, t2 := pairOf(i)
+				if !qqWellFormed(t1) || !qqWellFormed(t2) {
+					r.Note("skipped: unquote/splice-unquote without exactly one operand (C04's domain)")
+					return
+				}
+				rg.compareWithModel(pairProg(i), nil, r, true)
+			},
+		}
 		cW := func() int {
 			if tier == "thorough" {
 				return 5
@@ -359,7 +422,7 @@ func init() {
 			ID: "C12", Level: "model_checking",
 			Rule: "every quasiquote template of the bounded grammar is compared with a substitution computed on the model ADT (and with eval of quasiquoteexpand); every macro built from a bounded code template x every operand tuple is compared with the definitional interpreter, with evaluation of its own macroexpand result (head no longer a macro), and with the same body as an ordinary function; non-trivial = has effects",
 			Assumptions: []string{"unquote/splice-unquote with a wrong operand count are malformed (C04's domain) and skipped", "splicing a non-sequence is unspecified and skipped"},
-			Families: []*vf.Family{qq, mac, fx},
+			Families: []*vf.Family{qq, pairs, mac, fx},
 		}
 	})
 }
